@@ -15,6 +15,8 @@
 //!                            allocation failure). Capacity of the model: len <= 66.
 //!   BN_num_bytes(bn)         minimal byte length, 0 for zero (0..=66).
 //!   BN_bn2bin(bn, out)       writes exactly BN_num_bytes(bn) bytes (no padding) to `out`, returns that count.
+//!   BN_bn2bin_padded(out, len, bn)   (imported since the D2 repair) 0 if the value needs more than `len` bytes (`fits_in_bytes`),
+//!                            else writes exactly `len` bytes = the value left-padded with zeros, returns 1. Capacity len <= 66.
 //!   BN_free(bn)              frees.
 //! EC_GROUP (ec.c): EC_group_p384() returns a pointer to a static object, never NULL; EC_GROUP_free of it is a no-op.
 //! EC_POINT (ec.c, oct.c) — {point at infinity | affine point identified by its 49-byte compressed SEC1 encoding}:
@@ -304,6 +306,7 @@ pub unsafe fn BN_bn2bin(in_: *const BIGNUM, out: *mut u8) -> usize {
 /// aws-lc bn/bytes.c `BN_bn2bin_padded(out, len, in)`: writes |in| as exactly `len` big-endian bytes, left-padded with zeros;
 /// returns 1, or 0 (nothing guaranteed about `out`) when the value needs more than `len` bytes.
 pub unsafe fn BN_bn2bin_padded(out: *mut u8, len: usize, in_: *const BIGNUM) -> c_int {
+    assert!(len <= BN_CAP, "[model] capacity: BN_bn2bin_padded to more than 66 bytes");
     let b = *in_;
     let l = b.len;
     if l > len {
